@@ -195,7 +195,9 @@ func ZZ_C15_history() {
 	// the iteration order of Go maps is unspecified: every order is explored
 	zzsym.NondetMapOrder(true)
 	img := &zzKV{}
-	img.put("/z", []byte("0")) // a pre-existing key (the empty image is covered by ZZ_C15_two_instances)
+	if !zzC15BothImages || zzsym.Bool("preexisting-key") {
+		img.put("/z", []byte("0")) // quick: always a pre-existing key (the empty image is covered by ZZ_C15_two_instances)
+	}
 	A := &KVExecutor{db: img.clone(), txChan: make(chan []byte, 8)}
 	B := &KVExecutor{db: img.clone(), txChan: make(chan []byte, 8)}
 	gA, _, errA := A.InitChain(ctx, time.Unix(0, 0), 1, "c")
